@@ -241,7 +241,10 @@ theorem decodeX_ok' {fx : Fixes} {d : Bytes} {loc : Option Addr} {src : Addr} {n
     returns**: whenever the USN (first value, any spelling of the name) yields a udn, the `_udn` entry
     is that udn — whatever other headers the datagram carries (since the repair of F01a). -/
 theorem decode_udn_guarantee (pairs : List (Bytes × Bytes)) (a0 : Addr) (now : Int) (loc : Option Addr) (src : Addr) :
-    C03.Parse.RawOp.decoded (.pkt true (pairsOf (combineLower (headersOf pairs (udnOf pairs) a0) (callMeta now loc src)))) := by
+    ∀ u, (C03.Parse.truthy (get? (C16.SMap.writeAll C03.Parse.lower []
+            (pairsOf (combineLower (headersOf pairs (udnOf pairs) a0) (callMeta now loc src)))) "usn")).bind C03.Parse.udnFromUsn = some u →
+      C03.Parse.truthy (get? (C16.SMap.writeAll C03.Parse.lower []
+            (pairsOf (combineLower (headersOf pairs (udnOf pairs) a0) (callMeta now loc src)))) "_udn") = some u := by
   intro u hu
   have hi := headers_inv pairs (udnOf pairs) a0 now loc src
   have kusn : ofString "usn" = "usn".toList.map Char.toNat := by decide
